@@ -5,7 +5,7 @@ import numpy as np
 
 from vlib import clock, graphs as G, gens, oracles
 from vlib.base import import_dsw, derive_seed, jdump
-from props._repair import generated_graph, call_repair, well_formed
+from props._repair import generated_graph, large_order_graph, call_repair, well_formed
 
 ID = "C08"
 LEVEL = "fault_enumeration"
@@ -37,6 +37,36 @@ def setup(ctx):
 def generate(ctx):
     rng = ctx.rng
     dsw = import_dsw()
+    if ctx.shard % 4 == 1 or not ctx.quick():
+        big = large_order_graph(dsw, rng, 8)     # vertex indices beyond 2^15
+        if big is not None:
+            live8 = G.live_vertices(big)
+            g8 = dict(gens.graph_case(big, 8), t=0, fam="order-8")
+            for _ in range(3):
+                st = int(rng.choice(live8))
+                w = G.random_walk(big, st, 5 * 8 + 6, rng)
+                if len(w) < 3 * 8 + 2:
+                    continue
+                for _e in range(25):
+                    p = rng.randrange(8, len(w) - 16)
+                    kind = rng.choice("SSID")
+                    e = ["S", p, rng.choice([c for c in "ACGT" if c != w[p]])] if kind == "S" else ["I", p, rng.choice("ACGT")] if kind == "I" else ["D", p]
+                    yield "edit_set", dict(g8, start=st, walk=w, edits=[e], check=rng.choice([0, 4]), indel=True)
+    for _ in range(ctx.pick(20, 200)):   # G2: the same array object refilled with another graph between repairs
+        k = rng.choice([1, 2, 2, 3])
+        states = []
+        for _s in range(rng.randint(2, 3)):
+            g = generated_graph(dsw, rng, k)
+            if g is None:
+                continue
+            a = g[0]
+            st = int(rng.choice(G.live_vertices(a)))
+            w = G.random_walk(a, st, 5 * k + 6, rng)
+            if len(w) >= 3 * k + 2:
+                p = rng.randrange(k, len(w) - 2 * k)
+                states.append(dict(arcs=G.acc_to_hex(a), start=st, walk=w, edit=["S", p, rng.choice([c for c in "ACGT" if c != w[p]])]))
+        if len(states) >= 2:
+            yield "edit_sequence", dict(k=k, states=states)
     ks = ctx.pick([1, 2, 2, 3, 3, 4], [1, 2, 2, 3, 3, 4, 4, 5])
     for _ in range(ctx.pick(40, 500)):
         k = rng.choice(ks)
@@ -88,6 +118,21 @@ def _positions(rng, lo, hi, m, gap):
         cur += extras[i] + (gap if i else 0)
         pos.append(cur)
     return pos
+
+
+def check_edit_sequence(ctx, case):
+    """G2: one accessor object, refilled in place with another generated graph between repairs."""
+    dsw = import_dsw()
+    k = case["k"]
+    live = G.hex_to_acc(k, case["states"][0]["arcs"])
+    for st in case["states"]:
+        live[...] = G.hex_to_acc(k, st["arcs"])
+        before = ctx.violation_count
+        _judge(ctx, dsw, dict(arcs=st["arcs"], start=st["start"], fam="edit-sequence"), live, k, st["walk"], [st["edit"]], 0, True, "edit_set")
+        if ctx.violation_count > before:
+            ctx.violations[-1]["check"], ctx.violations[-1]["case"] = "edit_sequence", case
+            return
+    ctx.cls("edit sequences (same accessor object refilled in place)")
 
 
 def _judge(ctx, dsw, case, acc, k, w, edits, check_len, has_indel, sub_name):
@@ -154,12 +199,15 @@ def check_edit_set(ctx, case):
     _judge(ctx, dsw, case, acc, case["k"], case["walk"], case["edits"], case["check"], case["indel"], "edit_set")
 
 
-CHECKS = {"single_edits": check_single_edits, "edit_set": check_edit_set}
+CHECKS = {"single_edits": check_single_edits, "edit_set": check_edit_set, "edit_sequence": check_edit_sequence}
 
 
 def floors(agg, tier):
     out = []
     c = agg["classes"]
+    for name, need in (("edit sequences (same accessor object refilled in place)", 100), ("family|order-8", 50)):
+        if c.get(name, 0) < need:
+            out.append("%s observed %d < %d" % (name, c.get(name, 0), need))
     ks = (1, 2, 3, 4) if tier == "quick" else (1, 2, 3, 4, 5)
     for k in ks:
         if c.get("k=%d|detected == |E| = 1" % k, 0) < 200:
